@@ -515,27 +515,63 @@ def t04_marks(run, fx):
         return run.anchor_missing(rule, "switch on the IgnoreMarks discriminant in match_glyph")
     adt = fx.adt("context::IgnoreMarks")
     names = {i: v["name"] for i, v in enumerate(adt["variants"])} if adt else {}
+    import guards
+
+    def is_class(o):
+        return any(x[0] == "call" and (x[1] or "").endswith("glyph_class") for x in sym.walk(o))
+
+    def mark_test(term):
+        """+1 if term is true exactly for marks (class == 3), -1 if true exactly for non-marks, else 0"""
+        term = sym.strip(term)
+        sign = 1
+        while term[0] == "un" and term[1] == "Not":
+            sign = -sign
+            term = sym.strip(term[2])
+        if term[0] == "bin" and term[1] in ("Eq", "Ne"):
+            a, c = sym.strip(term[2]), sym.strip(term[3])
+            if (a[0] == "c" and a[1] == 3 and is_class(c)) or (c[0] == "c" and c[1] == 3 and is_class(a)):
+                return sign if term[1] == "Eq" else -sign
+        return 0
+
+    # blocks entered only when the glyph is a mark
+    mark_blocks = set()
+    for tb, fb, op, a, c, sw in guards.branch_conditions(b, prov):
+        k = mark_test(("bin", op, a, c))
+        tgt_mark = tb if k == 1 else (fb if k == -1 else None)
+        if tgt_mark is not None:
+            mark_blocks |= {i for i in range(len(b.blocks)) if b.reachable(i) and b.dominates(tgt_mark, i)}
     n = 0
     for val, tgt in arms[1]["arms"]:
         name = names.get(val, str(val))
         if name == "NoIgnoreMarks":
             continue
         n += 1
-        # blocks of this arm: dominated by the arm target
+        # blocks of this arm: dominated by the arm target. Every value the arm can return is `true`, or is true for every non-mark glyph
+        # (the negated class test itself), or is produced where the glyph is known to be a mark.
         blocks = [i for i in range(len(b.blocks)) if b.reachable(i) and b.dominates(tgt, i)]
-        cmp3 = False
+        bad = []
+        results = 0
         for i in blocks:
-            for st in b.blocks[i]["s"]:
-                if st["k"] == "assign" and st["rv"]["k"] == "bin" and st["rv"]["bop"] in ("Ne", "Eq"):
-                    ops = [sym.strip(prov.op(st["rv"]["a"])), sym.strip(prov.op(st["rv"]["b"]))]
-                    if any(o[0] == "c" and o[1] == 3 for o in ops) and any(
-                            any(x[0] == "call" and (x[1] or "").endswith("glyph_class") for x in sym.walk(o)) for o in ops):
-                        cmp3 = True
-        if cmp3:
+            vals = [(st, prov.rvalue(st["rv"])) for st in b.blocks[i]["s"] if st["k"] == "assign" and st["p"]["l"] == 0 and not st["p"]["p"]]
+            t = b.term(i)
+            if t["k"] == "call" and t["dest"]["l"] == 0 and not t["dest"]["p"]:
+                vals.append((t, ("call", t["callee"].get("path"), (), i, None, None)))
+            for item, v in vals:
+                results += 1
+                v = sym.strip(v)
+                if v[0] == "c" and v[1] in (1, True):
+                    continue
+                if mark_test(v) == -1 or i in mark_blocks:
+                    continue
+                bad.append(item)
+        if results and not bad:
             run.ok(rule, "match_glyph / %s: non-mark glyphs (class != 3) match" % name)
+        elif not results:
+            run.anchor_missing(rule, "result of the %s arm of match_glyph" % name)
         else:
-            run.fail(rule, "marks:%s" % name, "match_glyph / %s does not compare the glyph class with 3: base and ligature glyphs are rejected (skipped) by a "
-                     "flag that, by the specification, only filters marks" % name, b.loc(b.term(tgt)) if b.term(tgt).get("line") else "%s:%s" % (b.file, b.line))
+            run.fail(rule, "marks:%s" % name, "match_glyph / %s can reject a glyph whose class is not 3 (a result other than `true` is produced without the glyph being known "
+                     "to be a mark): base and ligature glyphs are skipped by a flag that, by the specification, only filters marks" % name,
+                     b.loc(bad[0]) if bad[0].get("line") else "%s:%s" % (b.file, b.line))
     if n < 3:
         run.anchor_missing(rule, "three mark-skipping arms in match_glyph (found %d)" % n)
 
